@@ -19,7 +19,7 @@ SPEC = dict(
     level_note="NO THEOREM for the analytic half: (i) 'never more than 2k+30 centroids' and (ii) accuracy. Both are LABELLED "
                "TESTS with a pass/fail threshold, evaluated by extracted Coq oracles on the crate's observations; the constants "
                "are calibrated on the unchanged crate, they detect regressions and prove nothing. (i) c15_ok fails a run whose "
-               "in-process digest holds more than 2k+30 centroids (measured worst 0.56 of the bound) or whose first/last "
+               "in-process digest holds more than 2k+30 centroids (measured worst 0.56 of the bound in the quick tier; the second review measured 0.66) or whose first/last "
                "centroid is not a unit-weight centroid on min/max. (ii) acc_ok (Corr/TDigest.v): (B) on every dump of an "
                "in-process digest every centroid of weight w >= 2 satisfies w - 1 <= 2 * n * max(q0(1-q0), q2(1-q2)) * Z/(2k), "
                "Z = 4 ln(n/2k) + 24, i.e. twice the k2 scale-function limit the merge pass enforces at merge time, k = the "
@@ -29,7 +29,7 @@ SPEC = dict(
                "below, those at v, two above) (measured worst ratio 0.46 quick tier / 1.76 on 60000-value streams against the threshold 4). "
                "Together: rank error <= 1/(2n) + 4 * (at most 4 + ties clusters) each <= 1 + 2 n q(1-q) Z/(2k). What the test "
                "does NOT show, and the measurement contradicts any stronger reading: there is no a-priori bound c*q(1-q)/k on "
-               "the ABSOLUTE rank error for arbitrary data -- measured worst |rank - empirical rank| = 0.63 (k = 10, n = 60000, "
+               "the ABSOLUTE rank error for arbitrary data -- measured worst |rank - empirical rank| = 0.63 (0.857 at k = 10 and 0.376 at k = 100 in the second review's runs) (k = 10, n = 60000, "
                "magnitudes log-uniform over 2^+-300: linear interpolation between two clusters holding 30 % of the weight "
                "each), 0.47 after merging digests of different k (k = 10 side dominates); for k near 10 the scale-function "
                "limit exceeds the total weight and checks nothing. After a merge with a coarser digest clusters overlap and (A) "
